@@ -383,6 +383,11 @@ func traceFsHistories(r *evid.Run, pool *wproto.Pool, nHist int, mix fsTraceMix,
 						exts = append(exts, e)
 					}
 				}
+				if rng.Intn(4) == 0 {
+					// one call in four: a suffix and a whole name that is shorter than it (".x", "x"), in either order
+					// (extStrings orders a list by a hash of its spelling): what a list means is not its order
+					exts = [][]string{{"DOT", "x"}, {"x"}}
+				}
 				if len(exts) == 0 && rng.Intn(2) == 0 {
 					exts = append(exts, []string{"DOT", "x"}) // (half of the calls without a list: the usual suffix)
 				}
